@@ -259,6 +259,14 @@ func getAffinityKeysFromMessage(
 		return nil, fmt.Errorf("empty affinityKey locator")
 	}
 
+	// reflect panics on some message shapes (e.g. a field promoted through a nil
+	// embedded pointer); report those as an error instead of crashing the RPC.
+	defer func() {
+		if r := recover(); r != nil {
+			affinityKeys, err = nil, fmt.Errorf("cannot retrieve affinity key %q from %T: %v", locator, msg, r)
+		}
+	}()
+
 	return keysFromMessage(reflect.ValueOf(msg), names, 0)
 }
 
